@@ -22,6 +22,7 @@ THEOREMS = [
     "C04_failure_is_local_null", "C04_error_locality", "C04_history_invariant", "C04_history_tables",
     "C04_history",
     "C04_collect_partial", "C04_collect_fuel_adequate", "C04_exec_eq_spec_partial",
+    "C04_collect_full_acyclic", "C04_exec_eq_spec_full_acyclic", "C04_exec_terminates",
 ]
 AXIOMS_OK = []
 RUN_MODULE = "Run.C04run Exec.ExecModel"
